@@ -144,8 +144,8 @@ def shards(tier, seed):
     out.append({"name": "big-calldata", "huge": T})
     for part in range(8):
         out.append({"name": "hook-len-%d" % part, "part": part, "exhaustive": "rlp.len for every n in [0,70000], offsets 0x80 and 0xc0"})
-    out.append({"name": "hook-misc", "count": 6000 if T else 1500})
-    out.append({"name": "random", "count": 8000 if T else 600})
+    out.append({"name": "hook-misc", "count": 20000 if T else 3000})
+    out.append({"name": "random", "count": 30000 if T else 3000})
     return out
 
 
